@@ -310,3 +310,38 @@ M("c10_accept_strip_equals", ["C10"],
   ("lomond/websocket.py", "        if accept_header.lower() != challenge.lower():", "        if accept_header.lower().rstrip('=') != challenge.lower().rstrip('='):"))
 M("c10_protocol_from_request", ["C10"],
   ("lomond/websocket.py", "        protocol = response.get('sec-websocket-protocol')", "        protocol = response.get('sec-websocket-protocol') or (self.protocols[0] if self.protocols else None)"))
+
+# ---- C06 -----------------------------------------------------------------
+M("c06_wbits_swapped", ["C06"],
+  ("lomond/compression.py", "        decompress_wbits = cls.get_wbits(options, \"server_max_window_bits\")\n        compress_wbits = cls.get_wbits(options, \"client_max_window_bits\")",
+   "        decompress_wbits = cls.get_wbits(options, \"client_max_window_bits\")\n        compress_wbits = cls.get_wbits(options, \"server_max_window_bits\")"))
+M("c06_reset_flags_swapped", ["C06"],
+  ("lomond/compression.py", "        reset_decompress = \"server_no_context_takeover\" in options\n        reset_compress = \"client_no_context_takeover\" in options",
+   "        reset_decompress = \"client_no_context_takeover\" in options\n        reset_compress = \"server_no_context_takeover\" in options"))
+M("c06_tail_strip_5", ["C06"],
+  ("lomond/compression.py", "        )[:-4]", "        )[:-5]"))
+M("c06_tail_not_stripped", ["C06"],
+  ("lomond/compression.py", "        )[:-4]", "        )"))
+M("c06_tail_not_appended", ["C06"],
+  ("lomond/compression.py", "        data.append(self._decompressobj.decompress(b\"\\x00\\x00\\xff\\xff\"))", "        pass"))
+M("c06_always_reset_compressor", ["C06"],
+  ("lomond/compression.py", "        if self.reset_compress:\n            self.reset_compressor()", "        if True:\n            self.reset_compressor()"),
+  equivalent=True)
+M("c06_never_reset_compressor", ["C06"],
+  ("lomond/compression.py", "        if self.reset_compress:\n            self.reset_compressor()", "        if False:\n            self.reset_compressor()"))
+M("c06_never_reset_decompressor", ["C06"],
+  ("lomond/compression.py", "        if self.reset_decompress:\n            self.reset_decompressor()", "        if False:\n            self.reset_decompressor()"),
+  equivalent=True)  # a decompressor that keeps history the peer will not use decodes the same bytes
+M("c06_compress_window_always_15", ["C06"],
+  ("lomond/compression.py", "            -max(9, self.compress_wbits)", "            -15"))
+M("c06_only_first_frame_inflated", ["C06"],
+  ("lomond/compression.py", "                self._decompressobj.decompress(frame.payload)\n                for frame in frames\n            ]\n\n        data.append",
+   "                self._decompressobj.decompress(frame.payload)\n                for frame in frames[:1]\n            ]\n\n        data.append"))
+M("c06_compress_false_ignored", ["C06"],
+  ("lomond/websocket.py", "        payload = text.encode('utf-8')\n        if compress and self.state.compression:", "        payload = text.encode('utf-8')\n        if self.state.compression:"))
+M("c06_wbits_7_allowed", ["C06"],
+  ("lomond/compression.py", "        if wbits < 8 or wbits > 15:", "        if wbits < 7 or wbits > 15:"))
+M("c06_quoted_value_not_unquoted", ["C06"],
+  ("lomond/extension.py", "        value = value.strip().strip('\"')", "        value = value.strip()"))
+M("c06_decompress_error_swallowed", ["C06"],
+  ("lomond/message.py", "            raise errors.CriticalProtocolError(\n                'unable to decompress payload'\n            )", "            return b''"))
